@@ -5,6 +5,7 @@ ID=$1; K=$2; WT=/tmp/wt/$ID; OUT=/tmp/wt/out_$ID
 export GOFLAGS= GOPROXY=off GOSUMDB=off GOTOOLCHAIN=local
 cd $WT && git checkout -q -- . && git clean -fdq
 DIR=$(head -1 $OUT/demo${K}_test.go | sed -E 's/.*(pkg\/[A-Za-z0-9_\/]+).*/\1/' | sed 's/\/$//')
+[ -d "$DIR" ] || DIR=$(dirname $DIR)
 PKGS=$(grep '^+++ b/' $OUT/patch$K.diff | sed 's/+++ b\///' | xargs -n1 dirname | sort -u | sed 's/^/.\//')
 echo "[$ID/$K] demo dir=$DIR touched=$PKGS"
 git apply --check $OUT/patch$K.diff || { echo "[$ID/$K] RESULT apply=FAIL"; exit 1; }
